@@ -17,7 +17,7 @@ ASSUMPTIONS = [
 ]
 GATES = [
     "mon.C01.invariant", "outcome.returned", "outcome.TreeError", "outcome.LoopError", "outcome.TypeError", "outcome.Injected",
-    "outcome.RecursionError", "move.between_trees", "histories",
+    "outcome.RecursionError", "move.between_trees", "histories", "mon.C01.insitu_invariant", "insitu.tests_run",
 ] + ["faulted." + k for k in (
     "pre_detach", "post_detach", "pre_attach", "post_attach", "pre_detach_children", "post_detach_children",
     "pre_attach_children", "post_attach_children")]
@@ -30,6 +30,13 @@ def plan(tier, seed, jobs):
 
 def run(ctx):
     E.Engine(ctx, MONITORS, faults=True).run()
+    if ctx.shard == 0:
+        import sys
+
+        sys.setrecursionlimit(1000)
+        from . import insitu
+
+        insitu.run(ctx)
 
 
 def replay(ctx, wit):
